@@ -93,6 +93,20 @@ ArchValue(n) ==
       [] n = "ppc64le" -> [hi |-> 49152, lo |-> 21]    \* 0xC0000015
       [] n = "s390"    -> [hi |-> 0,     lo |-> 22]    \* 0x00000016
       [] n = "s390x"   -> [hi |-> 32768, lo |-> 22]    \* 0x80000016
+      \* architectures for which the library has no syscall table (EM_MIPS 8, EM_IA_64 50, EM_ARM 40, EM_SPARC 2,
+      \* EM_SPARCV9 43, EM_68K 4, EM_PARISC 15, EM_LOONGARCH 258)
+      [] n = "mips"        -> [hi |-> 0,     lo |-> 8]
+      [] n = "mipsel"      -> [hi |-> 16384, lo |-> 8]
+      [] n = "mips64"      -> [hi |-> 32768, lo |-> 8]
+      [] n = "mipsel64"    -> [hi |-> 49152, lo |-> 8]
+      [] n = "ia64"        -> [hi |-> 49152, lo |-> 50]
+      [] n = "armeb"       -> [hi |-> 0,     lo |-> 40]
+      [] n = "sparc"       -> [hi |-> 0,     lo |-> 2]
+      [] n = "sparc64"     -> [hi |-> 32768, lo |-> 43]
+      [] n = "m68k"        -> [hi |-> 0,     lo |-> 4]
+      [] n = "parisc"      -> [hi |-> 0,     lo |-> 15]
+      [] n = "parisc64"    -> [hi |-> 32768, lo |-> 15]
+      [] n = "loongarch64" -> [hi |-> 49152, lo |-> 258]
       [] OTHER -> [hi |-> 65535, lo |-> 65535]
 
 \* ---- errno (asm-generic) ----------------------------------------------------------------
